@@ -336,6 +336,8 @@ enum NT {
     HtmlIP,
     SvgC,
     MathC,
+    /// content of a MathML annotation-xml without an HTML encoding: text and svg islands
+    AnnSvg,
 }
 
 const CDATA: &str = "<![CDATA[<b>]x]]>";
@@ -397,6 +399,14 @@ impl Gen {
                 }
                 self.wrap("<mrow>", "</mrow>", NT::MathC, size, &mut out);
                 self.wrap("<annotation-xml encoding=\"text/html\">", "</annotation-xml>", NT::HtmlIP, size, &mut out);
+                // an svg element that is a child of annotation-xml starts a real SVG island
+                self.wrap("<annotation-xml encoding=\"image/svg+xml\">", "</annotation-xml>", NT::AnnSvg, size, &mut out);
+            }
+            NT::AnnSvg => {
+                if size == 1 {
+                    out.push(("t".into(), false));
+                }
+                self.wrap("<svg>", "</svg>", NT::SvgC, size, &mut out);
             }
         }
         let rc = std::rc::Rc::new(out);
